@@ -124,6 +124,11 @@ func (a *Application) getProviderEndpoints(ctx context.Context, providerType str
 
 	providerEndpoints := a.filterEndpointsByProfile(endpoints, providerProfile, pr.requestLogger)
 
+	// filterEndpointsByProfile falls back to every endpoint when none is compatible. That suits
+	// the generic proxy route, but a provider-scoped route must never leave its provider:
+	// with no endpoint of the requested kind the caller gets an error instead.
+	providerEndpoints = keepCompatibleEndpoints(providerEndpoints, providerProfile)
+
 	// If the request has specific requirements (e.g., needs vision support),
 	// apply those filters on top of the provider constraint
 	if pr.profile != nil && len(pr.profile.SupportedBy) > 0 {
@@ -131,6 +136,17 @@ func (a *Application) getProviderEndpoints(ctx context.Context, providerType str
 	}
 
 	return providerEndpoints, nil
+}
+
+// keepCompatibleEndpoints drops endpoints whose type the profile does not accept
+func keepCompatibleEndpoints(endpoints []*domain.Endpoint, profile *domain.RequestProfile) []*domain.Endpoint {
+	compatible := make([]*domain.Endpoint, 0, len(endpoints))
+	for _, endpoint := range endpoints {
+		if profile.IsCompatibleWith(NormaliseProviderType(endpoint.Type)) {
+			compatible = append(compatible, endpoint)
+		}
+	}
+	return compatible
 }
 
 // filterModelsByProvider ensures model listings only show what's actually available
